@@ -57,6 +57,6 @@ def two_qubit_matrix_to_cz_isometry(
         q0, q1, mat, allow_partial_czs, atol, clean_operations
     )
     decomposed_ops = [ops.PhasedXZGate.from_matrix(np.diag([d[0][0], d[1][1]])).on(q1), *cz_ops]
-    return (
-        two_qubit_to_cz.cleanup_operations(decomposed_ops) if clean_operations else decomposed_ops
-    )
+    if clean_operations:
+        return two_qubit_to_cz.cleanup_operations(decomposed_ops, atol=atol)
+    return decomposed_ops
